@@ -177,8 +177,8 @@ CHECKS["C08"]["text"] = CHECKS["C08"]["text"].replace("For all 73 in-repo functi
 
 CHECKS["C17"] = dict(
   technique="structural formula matching over go/ssa (each conversion is one prescribed IEEE operation on exactly converted operands), a finite decision of the rounding helper over the sign classes its dominating comparisons leave, must-pass-through rejection facts, a decision-tree walk of the unit-label function over the specified exponents, constant evaluation",
-  text="Narrow by design: the SHAPE of the amount conversions, each clause a necessary condition of the statement. The rounding helper returns int(f-0.5) wherever its argument may be negative and int(f+0.5) wherever it may be positive (math.Round / Copysign forms accepted), decided over the sign classes left by the comparisons that select each return; every accepting return of NewAmount is that helper applied to the single product f*1e8 and lies behind the rejection of NaN, +Inf and -Inf on every path; ToUnit is the single division float64(a)/math.Pow10(u+8) and ToBCH the same with u=0; Format is FormatFloat(ToUnit(u),'f',-(u+8),64)+\" \"+u.String() and String is Format(AmountBCH); the six named units have the specified exponents and labels and every other unit prints 1e<N> BCH; MulF64 rounds the single product float64(a)*f; SatoshiPerBitcent/SatoshiPerBitcoin/MaxSatoshi have the specified values; amount.go keeps no mutable package-level state. NOT decided (and not claimed): that one correctly rounded float64 operation yields the nearest satoshi, the exact decimal text or the exact round trip for every amount up to 2.1e15 - that is arithmetic over IEEE-754 values, outside this technique; monotonicity and odd symmetry as value-level statements (only their structural ingredient, the sign-symmetric helper, is decided).",
-  note="Trusted: IEEE-754 correct rounding of float64 * and /; math.Pow10 exact for |n| <= 22; strconv.FormatFloat / FormatInt; math.IsNaN / IsInf / Round / Copysign. Added in the last round after probing showed the suite accepts a rounding helper that tests f < -1, a two-step product f*1e4*1e4 and a dropped -Inf test (DESIGN.md §4, §3 C17).",
+  text="Narrow by design: the SHAPE of the amount conversions, each clause a necessary condition of the statement. The rounding helper returns int(math.Round(f)) on every path - an exact rounding, half away from zero; the int(f+0.5)/int(f-0.5) forms are classified over the sign classes left by the comparisons that select each return (so a wrong threshold is reported with a witness) and refused in any case because the addition rounds a second time (defect F15, fixed); every accepting return of NewAmount is that helper applied to the single product f*1e8 and lies behind the rejection of NaN, +Inf and -Inf on every path; ToUnit is the single division float64(a)/math.Pow10(u+8) and ToBCH the same with u=0; Format is FormatFloat(ToUnit(u),'f',-(u+8),64)+\" \"+u.String() and String is Format(AmountBCH); the six named units have the specified exponents and labels and every other unit prints 1e<N> BCH; MulF64 rounds the single product float64(a)*f; SatoshiPerBitcent/SatoshiPerBitcoin/MaxSatoshi have the specified values; amount.go keeps no mutable package-level state. NOT decided (and not claimed): that one correctly rounded float64 operation yields the nearest satoshi, the exact decimal text or the exact round trip for every amount up to 2.1e15 - that is arithmetic over IEEE-754 values, outside this technique; monotonicity and odd symmetry as value-level statements (only their structural ingredient, the sign-symmetric helper, is decided).",
+  note="Trusted: IEEE-754 correct rounding of float64 * and /; math.Pow10 exact for |n| <= 22; strconv.FormatFloat / FormatInt; math.IsNaN / IsInf / Round / Copysign. Added in round 5 after probing showed the suite accepts a rounding helper that tests f < -1, a two-step product f*1e4*1e4 and a dropped -Inf test (DESIGN.md §4, §3 C17); known_findings.json records F15.",
   ref="§3 C17, §4")
 
 NA_REASON = {
